@@ -154,6 +154,14 @@ def summaries(fn, max_paths=2048, params_env=None, try_prefixes=False):
                     for x, y in zip(s.target.elts, v.elts):
                         if isinstance(x, ast.Name):
                             e2[x.id] = y
+                elif isinstance(s.target, (ast.Attribute, ast.Subscript)):
+                    # `self.x = helper(...)`: the store of the returned value
+                    a = ast.copy_location(ast.Assign(
+                        [s.target], v if v is not None
+                        else ast.Constant(None)), s)
+                    ast.fix_missing_locations(a)
+                    run([a] + list(rest), c, e2, f, k, retk)
+                    return
                 run(rest, c, e2, f, k, retk)
             run(list(s.body), conds, env, effects,
                 lambda c, e, f: bind(c, e, f, None), bind)
